@@ -123,20 +123,8 @@ def robust(F, R):
             R.ob('PDOM', 'PDOM::%s::%s' % (fnkey(fn), key), False, 'anchor-missing: expected one owner-cell CAS, found %d' % len(cell_cas), fn.file, fn)
             continue
         c = cell_cas[0].site
-        # Ok arm of the CAS result
-        oks = []
-        for b in lib.switches_on_result_of(fn, c):
-            for lab, tgt in lib.arm_blocks(fn, b, lambda l: l == 'Ok', F):
-                oks.append((b, tgt))
-        # `.is_ok()` form
-        for b in range(len(fn.blocks)):
-            t = fn.blocks[b]['t']
-            if t[0] == 'switch':
-                p = fn.prov_operand(t[1])
-                if p.root[0] == 'call' and (p.root[1].callee or '').endswith('::is_ok'):
-                    q = fn.prov_operand(p.root[1].args[0])
-                    if q.root[0] == 'call' and q.root[1].key() == c.key():
-                        oks.append((b, lib.bool_switch_arms(fn, b)[0]))
+        # Ok arm of the CAS result (match / if-let / .is_ok() / !.is_err())
+        oks = lib.arm_edges(fn, F, c, ('Ok',))
         if not oks:
             R.ob('PDOM', 'PDOM::%s::%s' % (fnkey(fn), key), False, 'no Ok arm of the owner-cell CAS found', c.where, fn)
             continue
@@ -228,7 +216,7 @@ def pool(F, R):
         R.ob('FLOW', key, False, 'anchor-missing: release_raw_index call', de.file, de)
     else:
         t = sym_nstr(sym(de, rs[0].args[1]))
-        R.ob('FLOW', key, 'get_index' in t and 'ptr' in t, 'released index = %s ; required get_index(ptr)' % t, rs[0].where, de)
+        R.ob('FLOW', key, lib.has_origin(de, rs[0].args[1], r'::get_index$', ('ptr', 2)), 'released index = %s ; required get_index(ptr)' % t, rs[0].where, de)
         const_arg(R, de, rs[0], 2, {'Default'}, 'release-mode', 'a locked bucket set would refuse all later allocations')
     al = [f for f in F.find_fns(r'^<iceoryx2_bb_memory::pool_allocator::PoolAllocator as iceoryx2_bb_elementary_traits::allocator::Allocate<.*>>::allocate$')]
     if len(al) != 1:
